@@ -45,6 +45,8 @@ func (b *modelBroker) Record(s string) {
 	*b.log = append(*b.log, s)
 }
 
+var maxExecs int64 = 400000
+
 type modelResult struct {
 	Outcomes   map[string]bool
 	Execs      int64
@@ -68,7 +70,7 @@ func modelOutcomes(sc Script, async bool) *modelResult {
 		res = runScript(b, sc, "")
 	}
 	r := &modelResult{Outcomes: map[string]bool{}}
-	x := &vsched.Explorer{Body: body, Bound: -1, Prune: true, MaxSteps: 5000, MaxExecs: 400000,
+	x := &vsched.Explorer{Body: body, Bound: -1, Prune: true, MaxSteps: 5000, MaxExecs: maxExecs,
 		Check: func(e *vsched.Exec) (string, *vsched.Violation) {
 			out := outcome(res, log)
 			if e.Status == vsched.Panicked || e.Status == vsched.Horizon {
